@@ -1,4 +1,5 @@
 import Ledger.Proofs.MachineAsset
+import Ledger.Proofs.MachineBC16
 
 /-!
 C23 — Numscript never overdraws a bounded source.
@@ -33,6 +34,18 @@ theorem bounded_source_floor (s : Script) (inp : Input) (r : Result) (h : sem cf
   simp only [initState, List.nil_append] at hpost e this
   simp only [hpost, ← e0]
   omega
+
+/-- `bounded_source_floor` at the byte-code level, for every compiled program (compiler
+    correctness `semBytecode_eq_sem_full`): the VM model `exec` running the compiled
+    opcodes never takes a bounded tracked balance below `min initial (-B)`. -/
+theorem bounded_source_floor_bytecode (s : Script) (p : Program)
+    (hc : compile s = .ok p) (inp : Input) (r : Result) (h : semBytecode Cfg.fixed s inp = .ok r)
+    (env : Env) (henv : resolvedEnv Cfg.fixed s inp = some env)
+    (a c : String) (ha : a ≠ "world") (B : Int) (hB : 0 ≤ B)
+    (hb : StmtsBound env a c B s.stmts) (v0 : Int) (hv : trackedInit Cfg.fixed s inp a c = some v0) :
+    min (inp.balance a c) (-B) ≤ inp.balance a c + flowIn a c r.postings - flowOut a c r.postings := by
+  rw [semBytecode_eq_sem_full hc inp] at h
+  exact bounded_source_floor s inp r h env henv a c ha B hB hb v0 hv
 
 /-- Per-send form: one send statement never takes a bounded tracked balance below
     `min (balance before) (-B)`. -/
